@@ -85,10 +85,11 @@ fn evaluate(g: &Graph, ng: &lightning::routing::gossip::NetworkGraph<build::Nop>
 					"exact-fit-within-rounding-margin-of-a-limit".to_string()
 				} else {
 					format!(
-						"slack/{}/{}/{}",
+						"slack/{}/{}/{}{}",
 						mode,
 						slug(e),
-						if q.scorer == Scorer::Fixed(0) { "zero-penalty-scorer" } else { "penalising-scorer" }
+						if q.scorer == Scorer::Fixed(0) { "zero-penalty-scorer" } else { "penalising-scorer" },
+						if q.sat_pow != 0 { "/saturation-share-set" } else { "" }
 					)
 				};
 				fired.push(Fired {
@@ -279,6 +280,15 @@ fn run_chunk(ch: &Chunk, fams: &[Family], thorough: bool, stop: &AtomicBool, dea
 					}
 					if q.fee_limit.is_some() {
 						st.bump("routes_under_fee_limit");
+					}
+					if q.max_cltv != 1008 {
+						st.bump("routes_under_binding_cltv_limit");
+					}
+					if q.max_len != 19 {
+						st.bump("routes_under_binding_length_limit");
+					}
+					if !q.failed.is_empty() || !q.failed_blinded.is_empty() {
+						st.bump("routes_avoiding_failed_channel");
 					}
 					if q.inflight.is_some() {
 						st.bump("routes_with_inflight");
@@ -541,7 +551,10 @@ fn main() {
 	ev.assume("Per-hop CLTV deltas are not compared with channel policies (the property only bounds the total); info_cltv_below_policy counts routes where a hop's delta was below the next channel's policy.");
 	ev.assume("Isomorphic graphs are not merged: node-id order and short-channel-id order influence the router's tie-breaking, so merging would not be sound.");
 
-	// Vacuity guards (full runs only).
+	// Vacuity guards (full runs only). A guard failure is a machinery error (exit 2) unless the run
+	// also found violations, which are reported first (a broken subject can legitimately make a
+	// whole outcome class disappear).
+	let mut guard_failure: Option<String> = None;
 	if args.opt("family").is_none() && args.opt("max_chunks").is_none() && !capped {
 		for k in [
 			"routes",
@@ -556,10 +569,14 @@ fn main() {
 			"completeness_obligations",
 			"routes_sharing_a_channel",
 			"routes_under_fee_limit",
+			"routes_under_binding_cltv_limit",
+			"routes_under_binding_length_limit",
+			"routes_avoiding_failed_channel",
+			"routes_raised_to_a_minimum",
 			"refused_no_single_path",
 		] {
-			if get(k) == 0 {
-				cli::die(&format!("vacuity guard: '{}' was never observed", k));
+			if get(k) == 0 && guard_failure.is_none() {
+				guard_failure = Some(format!("vacuity guard: '{}' was never observed", k));
 			}
 		}
 	}
@@ -575,5 +592,12 @@ fn main() {
 		start.elapsed().as_secs_f64(),
 		if capped { " (CAPPED)" } else { "" }
 	);
-	std::process::exit(findings::conclude(ID, &violations, &mut ev));
+	let code = findings::conclude(ID, &violations, &mut ev);
+	if let Some(g) = guard_failure {
+		if code == 0 {
+			cli::die(&g);
+		}
+		eprintln!("note: {} (violations were found, so they take precedence)", g);
+	}
+	std::process::exit(code);
 }
